@@ -42,7 +42,8 @@ import Verif.Model.Common
 
   `Variant` selects which repairs of notes/C16.md are in the modelled code: `Variant.coded` is the
   tree before the `fix:` commits e3cc9eb / 80a4538, `Variant.updateFixed` is the tree before
-  `fix:` 2140646 (`Update` repaired, rename defect D26 open), `Variant.fixed` is /repo at HEAD.  `current` is what the driver
+  `fix:` 2140646 (`Update` repaired, rename defect D26 open), `Variant.renameFixed` the tree before
+  67d968e / 2b0b009 / 6f70a0d (F1–F3 open), `Variant.fixed` is /repo at HEAD.  `current` is what the driver
   runs and what the un-suffixed theorems talk about: switching it is the one-line change that
   goes with a `fix:` commit in /repo.
 -/
@@ -270,23 +271,34 @@ inductive AErr
   | notInSorted | notInByProv
   deriving DecidableEq, Repr
 
-/-- which version of `administrator.Collection.Update` / `Authority.UpdateProvisioner` is modelled -/
+/-- which repairs are in the modelled code (one switch per `fix:` commit family) -/
 structure Variant where
   /-- `Update` adjusts `superCount`/`superCountByProvisioner` on a role change and returns
-      not-found for an unknown id (repairs D2, D3) -/
+      not-found for an unknown id (e3cc9eb, 80a4538: D3, D2) -/
   fixUpdate : Bool
-  /-- `Authority.UpdateProvisioner` rebuilds the caches after a successful update that changed the
-      provisioner's name (repairs the stale `bySubProv`/`byProv` keys) -/
+  /-- `Authority.UpdateProvisioner` rebuilds the admin index after a successful update that changed
+      the provisioner's name (2140646: D26) -/
   fixRename : Bool
+  /-- … and does so from memory (`reindexAdmins`) instead of re-reading the database (2b0b009: F1) -/
+  fixReindex : Bool
+  /-- `UpdateProvisioner` checks the provisioner policy against the administrators registered
+      under the provisioner's *current* name (67d968e: F3) -/
+  fixPolName : Bool
+  /-- when `reloadPolicyEngines` fails after a policy write, the engine is built from the policy
+      just written (`enforceAuthorityPolicy`, 6f70a0d: F2) -/
+  fixEnforce : Bool
   deriving DecidableEq, Repr
 
 /-- the tree before the `fix:` commits e3cc9eb (D3) and 80a4538 (D2) -/
-def Variant.coded : Variant := ⟨false, false⟩
+def Variant.coded : Variant := ⟨false, false, false, false, false⟩
 /-- the tree after e3cc9eb / 80a4538 and before `fix:` 2140646: `Update` repaired, provisioner
     rename still leaves the admin collection keyed by the old name (D26) -/
-def Variant.updateFixed : Variant := ⟨true, false⟩
-/-- /repo at HEAD: both repairs (e3cc9eb, 80a4538, 2140646) -/
-def Variant.fixed : Variant := ⟨true, true⟩
+def Variant.updateFixed : Variant := ⟨true, false, false, false, false⟩
+/-- the tree after 2140646 and before 67d968e / 2b0b009 / 6f70a0d: rename reloads from the
+    database (F1), policy engine re-read (F2), provisioner policy checked under the new name (F3) -/
+def Variant.renameFixed : Variant := ⟨true, true, false, false, false⟩
+/-- /repo at HEAD: every repair -/
+def Variant.fixed : Variant := ⟨true, true, true, true, true⟩
 
 /-- The code modelled by the driver and by the un-suffixed theorems: /repo as it stands. -/
 def current : Variant := Variant.fixed
@@ -566,21 +578,25 @@ def polOut : PolCheck → Option AuthOut
   | .evalFailure => some .evalFailure
   | .configFailure => some .configFailure
 
-/-- `checkProvisionerPolicy(prov.Name, prov.Policy)`: the administrators registered under that
-    *name* in the admin collection must stay allowed -/
-def provPolicyCheck (A : AColl) (p : Prov) : Option AuthOut :=
+/-- `checkProvisionerPolicy(name, prov.Policy)`: the administrators registered under `name` in the
+    admin collection must stay allowed -/
+def provPolicyCheck (A : AColl) (name : Str) (p : Prov) : Option AuthOut :=
   match p.pol with
   | none => none
-  | some pol => polOut (polCheck pol (((A.byProv.get p.name).getD []).map (·.sub)))
+  | some pol => polOut (polCheck pol (((A.byProv.get name).getD []).map (·.sub)))
 
-/-- `reloadPolicyEngines`: one database read; the engine is replaced only when that succeeds -/
-def reloadPolicy (f : Faults) (s : Auth) : Auth × AuthOut :=
+/-- `reloadPolicyEngines` after a policy write: one database read; the engine is replaced when
+    that succeeds. When it fails the error is reported either way; the repaired code
+    (`enforceAuthorityPolicy`) builds the engine from the policy just written, which is what the
+    database now holds. -/
+def reloadPolicy (v : Variant) (f : Faults) (s : Auth) : Auth × AuthOut :=
   let (s, bad) := tick f s
-  if bad then (s, .reloadFailed) else ({ s with engine := s.db.policy }, .ok)
+  if bad then ({ s with engine := if v.fixEnforce then s.db.policy else s.engine }, .reloadFailed)
+  else ({ s with engine := s.db.policy }, .ok)
 
 /-- `CreateAuthorityPolicy` / `UpdateAuthorityPolicy`: lock-out check against the requesting admin
     and every administrator in the database, database write, engine reload -/
-def policyWrite (f : Faults) (s : Auth) (cur : Str) (p : Pol) (create : Bool) : Auth × AuthOut :=
+def policyWrite (v : Variant) (f : Faults) (s : Auth) (cur : Str) (p : Pol) (create : Bool) : Auth × AuthOut :=
   let (s, bad) := tick f s                                   -- GetAdmins
   if bad then (s, .internalFailure) else
   match polOut (polCheck p (cur :: s.db.adms.map (·.sub))) with
@@ -590,7 +606,7 @@ def policyWrite (f : Faults) (s : Auth) (cur : Str) (p : Pol) (create : Bool) : 
     if bad then (s, .storeFailed) else
     if create && s.db.policy.isSome then (s, .storeFailed) else      -- save(old = nil) on an existing key
     if !create && s.db.policy.isNone then (s, .storeFailed) else     -- update: not found
-    reloadPolicy f { s with db := { s.db with policy := some p } }
+    reloadPolicy v f { s with db := { s.db with policy := some p } }
 
 def step (v : Variant) (f : Faults) (s0 : Auth) (op : AOp) : Auth × AuthOut :=
   let s := { s0 with calls := 0 }
@@ -619,7 +635,7 @@ def step (v : Variant) (f : Faults) (s0 : Auth) (op : AOp) : Auth × AuthOut :=
   | .storeProv p =>
     if s.cache.P.byName.has p.name then (s, .badRequest) else
     if s.cache.P.byTok.has p.tok then (s, .badRequest) else
-    match provPolicyCheck s.cache.A p with
+    match provPolicyCheck s.cache.A p.name p with
     | some o => (s, o)
     | none =>
     let (s, bad) := tick f s
@@ -630,7 +646,9 @@ def step (v : Variant) (f : Faults) (s0 : Auth) (op : AOp) : Auth × AuthOut :=
     | (P, none) => ({ s with cache := { s.cache with P := P } }, .ok)
     | (P, some _) => afterFail f { s with cache := { s.cache with P := P } } .cacheFailed
   | .updateProv p =>
-    match provPolicyCheck s.cache.A p with
+    -- the administrators of the provisioner are registered under the name it has *now*
+    let adminsName := if v.fixPolName then (s.cache.provName p.id).getD p.name else p.name
+    match provPolicyCheck s.cache.A adminsName p with
     | some o => (s, o)
     | none =>
     match s.cache.P.update p with
@@ -642,7 +660,13 @@ def step (v : Variant) (f : Faults) (s0 : Auth) (op : AOp) : Auth × AuthOut :=
       let (s, bad) := tick f s
       if bad then afterFail f s .storeFailed else
       let s := { s with db := { s.db with provs := s.db.provs.map (fun q => if q.id = p.id then p else q) } }
-      if v.fixRename ∧ renamed then afterFail f s .ok else (s, .ok)
+      if v.fixReindex ∧ renamed then
+        -- `reindexAdmins`: a new admin collection over the updated provisioner collection, every
+        -- cached admin stored again (paged `Find` = the listing, `admin_paging_exact`); no database read
+        match buildCache.goA s.cache.P {} s.cache.A.sorted with
+        | some A => ({ s with cache := { s.cache with A := A } }, .ok)
+        | none => (s, .cacheFailed)
+      else if v.fixRename ∧ renamed then afterFail f s .ok else (s, .ok)
   | .removeProv id =>
     match s.cache.P.byID.get id with
     | none => (s, .badRequest)                    -- sic: ErrorBadRequestType "provisioner not found"
@@ -659,14 +683,14 @@ def step (v : Variant) (f : Faults) (s0 : Auth) (op : AOp) : Auth × AuthOut :=
         let (s, bad) := tick f s
         if bad then afterFail f s .storeFailed else
         ({ s with db := { s.db with provs := s.db.provs.filter (fun q => decide (q.id ≠ id)) } }, .ok)
-  | .createPolicy cur p => policyWrite f s cur p true
-  | .updatePolicy cur p => policyWrite f s cur p false
+  | .createPolicy cur p => policyWrite v f s cur p true
+  | .updatePolicy cur p => policyWrite v f s cur p false
   | .removePolicy =>
     let (s, bad) := tick f s
     if bad then (s, .storeFailed) else
     match s.db.policy with
     | none => (s, .storeFailed)                   -- DeleteAuthorityPolicy: not found
-    | some _ => reloadPolicy f { s with db := { s.db with policy := none } }
+    | some _ => reloadPolicy v f { s with db := { s.db with policy := none } }
   | .restart =>
     -- a new process: caches rebuilt from the database (start-up fails if that fails)
     match reload f s with
@@ -723,7 +747,7 @@ structure Aud where
     bit computed by the harness with the same library calls. -/
 structure AdminReq where
   parseOk : Bool              -- jose.ParseSigned
-  chainOk : Bool              -- x5c chain verifies to the CA roots with ExtKeyUsageClientAuth
+  chainOk : Bool              -- x5c chain verifies to the CA's OWN roots (not the federated ones) with ExtKeyUsageClientAuth
   digSig : Bool               -- leaf.KeyUsage & digitalSignature ≠ 0
   sigOk : Bool                -- jwt.Claims(leaf.PublicKey, …): signed by the leaf's key
   prov : Option Str           -- LoadProvisionerByCertificate(leaf): name of the issuing provisioner
